@@ -1,7 +1,9 @@
 SPECIFICATION Spec
 CONSTANTS
   Profiles = {"P1", "P2"}
-  MaxSets = 2
+  StmtSet = {"p2", "b2"}
+  CopySetters <- Setters
+  MaxSets = 1
   MaxLives = 2
   MaxExecs = 1
   WithBatch = FALSE
